@@ -116,6 +116,18 @@ let () =
             let oc = List.map nat_of_int (List.filter (fun k -> k < nci) perm) in
             let ob = List.map nat_of_int (List.filter (fun k -> k < nbi) perm) in
             let s1 = if mode = "serial" then step_serial !cfg tn s0 else step_smp !cfg tn oc ob s0 in
+            (* small-step self-check of the extracted model: the component items under an interleaved read/write-phase trace
+               (two items in flight at a time, committed in reverse order) against their atomic serial execution *)
+            let citems = Model.concat (smp_cvc_work vs' tn) in
+            let nit = List.length citems in
+            let ord = List.filter (fun k -> k < nit) perm in
+            let rec mk l = match l with
+              | a :: b :: r -> Rd (nat_of_int a) :: Rd (nat_of_int b) :: Wr (nat_of_int b) :: Wr (nat_of_int a) :: mk r
+              | [a] -> [Rd (nat_of_int a); Wr (nat_of_int a)]
+              | [] -> [] in
+            let sa = mrun loc_eqb citems (mk ord) s0 [] and sb = run loc_eqb citems s0 in
+            let ss_ok = List.for_all (fun x -> x) (List.concat (List.mapi (fun v nc -> List.init nc (fun c ->
+                          let l = LCvc (nat_of_int v, nat_of_int c) in sa l = sb l)) ncomp)) in
             (* materialise *)
             let nt = Hashtbl.create 64 in
             let put l = Hashtbl.replace nt l (s1 l) in
@@ -147,7 +159,8 @@ let () =
               List.iteri (fun v _ -> Buffer.add_string out (Printf.sprintf "%d," (get (LF (nat_of_int v))))) ncomp;
               Buffer.add_string out " BE=";
               List.iteri (fun b _ -> Buffer.add_string out (Printf.sprintf "%d," (get (LBiasE (nat_of_int b))))) biases;
-              Buffer.add_string out (Printf.sprintf " EN=%d" (get LEnergy))
+              Buffer.add_string out (Printf.sprintf " EN=%d" (get LEnergy));
+              Buffer.add_string out (if ss_ok then " SS=ok" else " SS=BAD")
             end;
             Buffer.add_string out " ; ";
             cfg := next_cfg !cfg tn
